@@ -215,6 +215,25 @@ type env struct {
 	seq     int
 	known   map[string][]badSet // entry -> deviation sets known to kill or hang the process
 	lastRefresh time.Time
+	start       time.Time
+	capped      bool
+}
+
+// overBudget turns an exploration that would run into the worker watchdog into
+// an honest "not exhaustive" (never into a violation).
+func (e *env) overBudget() bool {
+	if e.capped {
+		return true
+	}
+	budget := 700 * time.Second
+	if e.c.Thorough() {
+		budget = 150 * time.Minute
+	}
+	if time.Since(e.start) > budget {
+		e.capped = true
+		e.c.NotExhaustive("time budget of %v exhausted; remaining cases of this shard were not run", budget)
+	}
+	return e.capped
 }
 
 // badSet is a minimal deviation set whose execution kills or hangs the process.
@@ -225,7 +244,7 @@ type badSet struct {
 }
 
 func newEnv(c *core.Ctx) *env {
-	e := &env{c: c, g: newGuard(stageTimeout), known: map[string][]badSet{}}
+	e := &env{c: c, g: newGuard(stageTimeout), known: map[string][]badSet{}, start: time.Now()}
 	if d := os.Getenv("C20_SCRATCH"); d != "" {
 		if os.MkdirAll(d, 0o755) == nil {
 			e.scratch = d
